@@ -10,7 +10,7 @@ RULE = ("exhaustive over list shapes: ALL (affine-pair list, prepared-pair list)
         "{P1,P2,O} x {Q1,Q2,O}; each list is evaluated TWICE in a row on the same pair arrays (private cursor fields pre-filled with 0xFF garbage before the "
         "first evaluation, left as they are before the second), through pairing_sum (C) and pairing_product (C++); expected value = product of the single "
         "pairings = e(G1,G2)^(sum of exponent products) from the Python model; plus prepared_pairing vs pairing on all alphabet pairs; plus LONG lists: the "
-        "pair count takes every boundary value 5..9, 15..17, 31..33, 63..65, 100 (pure affine, pure prepared, half/half; with an identity pair in the last position). "
+        "pair count takes every boundary value 5..9, 15..17, 31..33, 63..65, 100 (pure affine, pure prepared, half/half; with identity pairs in the last, first, an early and the middle position and as a run). "
         "state = (list, evaluation number); distinct by construction; non-trivial = at least one pair without an identity")
 ASSUMPTIONS = ["single pairings are decided by C01; e(G1,G2) and its powers come from vlib/ref.py", "portable back ends run every 4th list (the Miller-loop code is shared)"]
 CONFIGS = ["asm", "c64", "c32"]
@@ -97,10 +97,18 @@ def long_lists(tier):
     out = []
     for n in LONG_LENGTHS:
         base = [pat[i % 4] for i in range(n)]
-        for tail in (None, ("P1", "O"), ("O", "Q2")):
+        # identity pairs at the end, at the start, early (index 3) and in the middle, singly and as a run of three: where the dead pairs sit
+        # relative to the live ones is part of the list's shape
+        variants = [None] + [(pos, idn) for pos in ("last", "first", 3, "mid") for idn in (("P1", "O"), ("O", "Q2"))] + [("run", ("O", "Q1"))]
+        for v in variants:
             lst = list(base)
-            if tail is not None:
-                lst[-1] = tail
+            if v is not None:
+                pos, idn = v
+                if pos == "run":
+                    for k in (1, 2, 3):
+                        lst[min(k, n - 1)] = idn
+                else:
+                    lst[{"last": n - 1, "first": 0, "mid": n // 2}.get(pos, pos) if not isinstance(pos, int) else min(pos, n - 1)] = idn
             out.append((tuple(lst), ()))
             out.append(((), tuple(lst)))
             out.append((tuple(lst[: n // 2]), tuple(lst[n // 2:])))
